@@ -66,8 +66,13 @@ class Site:
         self.detail = detail
         self.discharge = None
 
+    owner = None   # set by run_census: facts.owner_root (sites of an inlined helper's closures belong to the caller)
+
     def root(self):
-        return strip_generics(self.fn.path.split("::{closure")[0])
+        p = self.fn.path
+        if Site.owner is not None:
+            p = Site.owner(p)
+        return strip_generics(p.split("::{closure")[0])
 
     def key(self):
         return "%s/%s/%s" % (self.root(), self.kind, self.producer)
@@ -326,7 +331,10 @@ def run_census(facts, res, rid, crates, roots, triage, class_rules, prop, findin
     """class_rules: list of fn(site) -> reason or None (class discharges)."""
     cg = mir.CallGraph(facts)
     reach = cg.reach(list(roots) + std_trait_impl_roots(facts, crates))
-    fns = [facts.fns[p] for p in sorted(reach) if p in facts.fns and facts.fns[p].crate in crates and facts.fns[p].has_body()]
+    # a helper that was spliced into its callers is accounted there
+    fns = [facts.fns[p] for p in sorted(reach) if p in facts.fns and facts.fns[p].crate in crates and facts.fns[p].has_body()
+           and not facts.fns[p].d.get("inlined_into")]
+    Site.owner = staticmethod(facts.owner_root)
     stats = {"functions_reachable": len(fns), "sites": 0, "class": 0, "mechanical": 0, "invariant": 0, "finding": 0,
              "new": 0}
     used = set()
